@@ -61,7 +61,11 @@ class MonSocket(socket.socket):
     def __init__(self, loop: "VLoop", real: socket.socket, peername, transport_kind: str, owner: str):
         super().__init__(real.family, real.type, real.proto, fileno=real.detach())
         self._l = loop
-        self._pn = peername
+        # what the OS reports as the peer's address is numeric, whatever name the caller configured
+        h = peername[0]
+        if not all(x.isdigit() for x in str(h).split(".")) or str(h).count(".") != 3:
+            h = "192.0.2.%d" % (sum(str(h).encode()) % 250 + 1)
+        self._pn = (h,) + tuple(peername[1:])
         self.kind = transport_kind
         self.owner = owner
         _SID[0] += 1
